@@ -8,7 +8,7 @@ cd /verif
 ids="$@"
 [ -z "$ids" ] && ids=$(ls selftest)
 vd=$(mktemp -d /tmp/vself.XXXXXX)
-cp -r props.json known_findings.json ledger "$vd"/ 2>/dev/null
+cp -r props.json known_findings.json ledger bounded "$vd"/ 2>/dev/null
 [ -d specs ] && cp -r specs "$vd"/
 list=$(for id in $ids; do echo "$id - $vd"; for p in selftest/$id/*.patch; do [ -f "$p" ] && echo "$id $p $vd"; done; done)
 echo "$list" | xargs -P 6 -L 1 sh -c '
